@@ -19,6 +19,14 @@ CLAIMED = {
         "Only numpy-family backends are executable here.",
         "DESIGN.md §4 C01, §3 S1/S2",
     ),
+    "C14": (
+        "property-based testing of set_at/add_at/subtract_at against an explicit per-index loop model, plus get_at read-back (Hypothesis)",
+        "Generated-input search over target/coordinate/update expression structures, duplicate rates and backends; the oracle loops over every index "
+        "combination of all un-bracketed axes (exact accumulation; admissible-set for competing set updates) and a metamorphic read-back through get_at. "
+        "Exploration only.",
+        "Trusted: einxverif/loopsem.py run_update (reference), numpy. numpy-family backends only; integer data so that accumulation is exact.",
+        "DESIGN.md §4 C14",
+    ),
 }
 NOT_YET = "check not built yet in this round (see DESIGN.md §8 build order); the property has an executable oracle and will be claimed once its check is registered"
 
